@@ -6,9 +6,13 @@ import CifModel.Props.C03Extra
 namespace CifModel.ReviewC03
 open CifModel Model.Parser Model.Lexer
 
-/-- `C03_reported` applied: the die handler on `data_a _x _y` fails with 133 (≠ 0, 1001, 73), hence has reported -/
+/-- `C03_reported` applied: the die handler on `data_a _x _y` fails with 133 (≠ 0, 1001), hence has reported -/
 example : (parse C03.opts2 dieAll [] (a!"data_a _x _y")).log ≠ [] :=
-  C03_reported C03.opts2 dieAll [] (a!"data_a _x _y") (by decide +kernel) (by decide +kernel) (by decide +kernel)
+  C03_reported C03.opts2 dieAll [] (a!"data_a _x _y") (by decide +kernel) (by decide +kernel)
+
+/-- `C03_reported_full` needs the failure only -/
+example : (parse C03.opts2 dieAll [] (a!"data_a _x _y")).log ≠ [] :=
+  C03_reported_full C03.opts2 dieAll [] (a!"data_a _x _y") (by decide +kernel)
 
 /-- `C03_fuel_suffices` applied to a policy that rejects the second report with a code of its own -/
 example : (parse C03.opts2 (fun i _ => if i = 1 then 77 else 0) [] (a!"data_a _x _y [ ' {")).rc ≠ NOFUEL :=
